@@ -11,6 +11,10 @@ CHECKS = {
          "bounded-exhaustive enumeration of policies; each compiled filter is executed in a cBPF interpreter over struct seccomp_data on a closed input set (thorough: full 2^32 syscall-number and architecture-tag sweeps) against the reference policy semantics",
          "Every assignment {absent, allow, trace} of a 6-name (thorough: 8) syscall alphabet x 8 default-action values x both list orders, plus whole-table / alternating / shipped run-program policies that force the long-jump code paths, plus malformed policies that must be refused. The filter that Build() hands to the kernel (after ExportBPF, via SockFprog) is interpreted with kernel cBPF semantics on native-arch x {0..4095 (thorough 0..65535), every table number +-1 with and without bit 30 / bit 31, boundary values} and on 63 foreign/flipped architecture tags; thorough adds complete 2^32 syscall-number sweeps (6 policies x 3 tags) and complete 2^32 architecture sweeps.",
          "Trusted: /verif/cbpf interpreter (kernel classic-BPF semantics for the seccomp subset; a structural pass re-checks per program that only nr and arch are loaded, so ip/args cannot matter). For nr >= 2^31 with bit 30 clear the oracle accepts refusal or the default action (the dependency refuses everything >= 2^30, which is stricter than the property)."),
+ "C03": ("exploration",
+         "bounded-exhaustive enumeration of syscall programs x issuer x verdict maps on a real tracer and tracee, against a reference interpreter of the script (return values from the tracee's own log, side effects from the file system)",
+         "Seam A drives ptracer.Tracer directly with a scripted Handle: every program of <=2 (thorough: <=3) operations over {mkdirat, unlinkat, openat(O_CREAT) traced; getpid allowed; getuid neither allowed nor traced} x issuer in {main, forked child, vforked child, CLONE_THREAD thread, grandchild} x every map traced-op -> {allow, ban, kill}; allowed ops must execute with their real result, banned ops must not execute and must return -EACCES, killed ops and everything after must not take effect and the run must end Disallowed Syscall, a filter kill of the main thread group likewise. Seam B drives runner/ptrace.Runner with a scripted path policy: mkdirat / unlinkat / renameat2 / linkat x every per-path verdict pair x issuer.",
+         "Programs are sequential (a parent waits for its sub-script). A filter kill inside a child process ends only that child; Disallowed Syscall is required only for the main thread group. The tracee is a freestanding static probe (no libc start-up syscalls) so a strict default-kill filter can be used."),
  "C04": ("exploration",
          "exhaustive enumeration of the launch-option lattice on real forkexec launches of a self-reporting probe; reference function options -> security state; namespace identities read from the host side",
          "All 3x2^5 combinations of {credential (with groups / with empty groups / none), drop-caps, no-new-privs, seccomp filter, sync callback, unshare-cgroup-after-sync} x 6 namespace modes (none; user; pid+mnt+uts+ipc+net; user+those; those+pivot root; user+those+pivot root) x {no tracing, ptrace (the harness is the tracer and detaches), stop-before-seccomp}, with work dir and host/domain name requested whenever namespaces allow. The probe reports capability sets, securebits, no_new_privs, seccomp mode, uids/gids/groups, session, cwd, uname; the harness compares /proc/<pid>/ns/* with its own. The launching process is given supplementary groups so that inheriting them is visible.",
